@@ -1,6 +1,7 @@
 import PercevalModel.Proto
 import PercevalModel.Model.C17
 import PercevalModel.Model.C17X
+import PercevalModel.Model.C17W
 import PercevalModel.Model.C17R
 import PercevalModel.Model.C17Y
 
@@ -28,6 +29,10 @@ import PercevalModel.Model.C17Y
   iter = [[name, n], …];  ctx = ["absent"] | ["null"] | ["nomap"] | ["map", "good"|"noattr"|"nomodule", iter|null]
     {"fixed": b, "delay": D, "kops": [[now1, now2, op], …]}       -> {"outs": [s₁, …]}   one history of the
         clocked machine (`Model/C17R.lean`, part K): every operation under the throttle
+    {"fixed": b, "t0": now, "name": s, "wops": [[now, wop], …]}   -> {"outs": [s₁, …]}   one history of the full
+        machine with status answers given by SHAPE (`Model/C17W.lean`)
+  wop  = fop | ["pw", view, rw];  rw = ["h", code] | ["c"]
+         | ["sw", status|null, progress|null, has_progress_message, has_status_message, creation|null, start|null, duration|null]
   Identifiers, message tokens and result tokens are not transmitted: the step at (1-based) position k
   of a history uses k for all three (the harness' fake server does the same).
 -/
@@ -448,6 +453,48 @@ def runYOps (fixed : Bool) (delay : Int) (j : Json) (ops : Array Json) : Except 
     k := k + 1
   return outs
 
+/-! ### status answers by shape (`Model/C17W.lean`) -/
+
+def optNat (j : Json) : Except String (Option Nat) :=
+  match j with
+  | .null => pure none
+  | v => do return some (← v.getNat?)
+
+def optString (j : Json) : Except String (Option String) :=
+  match j with
+  | .null => pure none
+  | v => do return some (← v.getStr?)
+
+def parseRespW (k : Nat) (j : Json) : Except String RespW := do
+  let (t, a) ← tag j
+  match t with
+  | "sw" =>
+    return .status ⟨← optString (← arg a 1), ← optNat (← arg a 2), ← (← arg a 3).getBool?, ← (← arg a 4).getBool?,
+                    ← optInt (← arg a 5), ← optInt (← arg a 6), ← optInt (← arg a 7)⟩ k
+  | "h" => return .http (← argNat a 1)
+  | "c" => return .conn
+  | _ => throw s!"bad shaped status response {t}"
+
+def parseWOp (j : Json) (k : Nat) : Except String WOp := do
+  let (t, a) ← tag j
+  match t with
+  | "pw" => return .rawPoll (← parseView (← argNat a 1)) (← parseRespW k (← arg a 2))
+  | _ => return .full (← parseFOp j k)
+
+def runWOps (fixed : Bool) (t0 : Int) (name : String) (ops : Array Json) : Except String (Array String) := do
+  let mut f := finit t0 name
+  let mut outs : Array String := #[]
+  let mut k := 1
+  for oj in ops do
+    let a ← oj.getArr?
+    let now ← (← arg a 0).getInt?
+    let op ← parseWOp (← arg a 1) k
+    let (f', o) := wstep fixed f ⟨now, op⟩
+    outs := outs.push (foutStr f' o)
+    f := f'
+    k := k + 1
+  return outs
+
 def handleE (j : Json) : Except String Json := do
   let fixed ← boolOf j "fixed"
   if let .ok rops := arrOf j "rops" then
@@ -458,6 +505,9 @@ def handleE (j : Json) : Except String Json := do
     return Json.mkObj [("outs", Json.arr (outs.map Json.str))]
   if let .ok kops := arrOf j "kops" then
     let outs ← runKOps fixed (← intOf j "delay") kops
+    return Json.mkObj [("outs", Json.arr (outs.map Json.str))]
+  if let .ok wops := arrOf j "wops" then
+    let outs ← runWOps fixed (← intOf j "t0") (← strOf j "name") wops
     return Json.mkObj [("outs", Json.arr (outs.map Json.str))]
   if let .ok fops := arrOf j "fops" then
     let outs ← runFOps fixed (← intOf j "t0") (← strOf j "name") fops
